@@ -6,7 +6,11 @@ package main
 // and the line-permutation metamorphic relation.
 
 import (
+	"encoding/json"
 	"fmt"
+	"os"
+	"os/exec"
+	"path/filepath"
 	"runtime"
 	"strings"
 	"testing"
@@ -23,7 +27,79 @@ type c15Case struct {
 	// another invocation run in between (same files, different -alpha/-confidence/-filter):
 	// the output must not depend on which command lines ran earlier in the process
 	OtherAlpha, OtherConfidence float64
+	Fresh                       bool // also compare with a run in a fresh process
 }
+
+type c15ChildIO struct {
+	Args           []string
+	Stdout, Stderr string
+	Err            string
+}
+
+// c15FreshRun executes benchstat invocations in a new process (this test
+// binary re-executed with TestC15Child).
+func c15FreshRun(dir string, argLists [][]string) ([]c15ChildIO, error) {
+	in := filepath.Join(dir, "child-in.json")
+	out := filepath.Join(dir, "child-out.json")
+	var req []c15ChildIO
+	for _, a := range argLists {
+		req = append(req, c15ChildIO{Args: a})
+	}
+	b, _ := json.Marshal(req)
+	if err := os.WriteFile(in, b, 0o644); err != nil {
+		return nil, err
+	}
+	cmd := exec.Command(os.Args[0], "-test.run", "^TestC15Child$", "-test.count=1")
+	cmd.Env = append(os.Environ(), "VERIF_C15_IN="+in, "VERIF_C15_OUT="+out, "VERIF_OUT=", "GORACE=halt_on_error=1")
+	if msg, err := cmd.CombinedOutput(); err != nil {
+		return nil, fmt.Errorf("child: %v\n%s", err, msg)
+	}
+	rb, err := os.ReadFile(out)
+	if err != nil {
+		return nil, err
+	}
+	var r []c15ChildIO
+	if err := json.Unmarshal(rb, &r); err != nil {
+		return nil, err
+	}
+	for _, x := range r {
+		if x.Err != "" {
+			return nil, fmt.Errorf("child benchstat error: %s", x.Err)
+		}
+	}
+	if len(r) != len(argLists) {
+		return nil, fmt.Errorf("child returned %d results for %d invocations", len(r), len(argLists))
+	}
+	return r, nil
+}
+
+func TestC15Child(t *testing.T) {
+	in := os.Getenv("VERIF_C15_IN")
+	if in == "" {
+		t.Skip("helper for TestC15Rapid")
+	}
+	b, err := os.ReadFile(in)
+	if err != nil {
+		t.Fatal(err)
+	}
+	var r []c15ChildIO
+	if err := json.Unmarshal(b, &r); err != nil {
+		t.Fatal(err)
+	}
+	for i := range r {
+		o, e, rerr := runStat(r[i].Args)
+		r[i].Stdout, r[i].Stderr = o, e
+		if rerr != nil {
+			r[i].Err = rerr.Error()
+		}
+	}
+	ob, _ := json.Marshal(r)
+	if err := os.WriteFile(os.Getenv("VERIF_C15_OUT"), ob, 0o644); err != nil {
+		t.Fatal(err)
+	}
+}
+
+var _ = c15ChildIO{}
 
 var c15Procs = []int{1, 2, 3, 4, 8, 16, 32}
 
@@ -132,6 +208,27 @@ func c15Check(c c15Case) (v vcase.Verdict) {
 		}
 		v.Label("interleaved_invocation")
 	}
+	// a fresh process is the reference for "a function of its arguments and file contents
+	// alone": whatever ran earlier in this process (other cases, other flags) must not matter
+	if c.Fresh {
+		var argLists [][]string
+		for _, f := range formats {
+			argLists = append(argLists, append(c.Stat.flags(f), paths...))
+		}
+		outs, err := c15FreshRun(dir, argLists)
+		if err != nil {
+			v.Failf("VERIF-BROKEN fresh-process run: %v", err)
+			return
+		}
+		for fi, f := range formats {
+			if outs[fi].Stdout != first[fi].o || outs[fi].Stderr != first[fi].e {
+				v.Failf("%s output of %q differs between this process (which ran other invocations before) and a fresh process\n--- this process\n%s\n--- fresh process\n%s\n--- stderr here / fresh\n%s\n%s",
+					f, c.Stat.flags(f), clipS(first[fi].o), clipS(outs[fi].Stdout), clipS(first[fi].e), clipS(outs[fi].Stderr))
+				return
+			}
+		}
+		v.Label("fresh_process_reference")
+	}
 	tables, perr := parseStatCSV(first[1].o)
 	if perr != nil {
 		v.Failf("%v", perr)
@@ -215,7 +312,8 @@ func c15Gen(t *rapid.T) c15Case {
 		Perm: rapid.SliceOfN(rapid.IntRange(0, 1000), 12, 12).Draw(t, "perm"),
 		Reps: vcase.Scale(6, 24),
 		OtherAlpha:      rapid.SampledFrom([]float64{0.5, 1, 0.001, 0.2}).Draw(t, "otheralpha"),
-		OtherConfidence: rapid.SampledFrom([]float64{0.5, 0.99, 0.8}).Draw(t, "otherconf"),
+		OtherConfidence: rapid.SampledFrom([]float64{0.5, 0.99, 0.8, 0.993, 0.947, 0.903}).Draw(t, "otherconf"),
+		Fresh:           vcase.OneIn(t, 10, "fresh"),
 	}
 }
 
